@@ -196,9 +196,13 @@ fn mutator_calls(spec: &Spec, rng: &mut ChaCha8Rng, out: &mut Out) {
     let rates: [(i64, f64); 3] = [(0, 0.0), (2, 1.0), (1, 0.5)];
 
     let mut i32s: Vec<i32> = vec![i32::MIN, i32::MIN + 1, -2, -1, 0, 1, 2, i32::MAX - 1, i32::MAX, 0x7fff, 0x8000, 0xffff, 0x10000, -0x8000];
+    // boundaries of the narrower widths inside the wider domain
+    for w in [7u32, 8, 15, 16] { for d in [-1i32, 0, 1] { i32s.push((1i32 << w) + d); i32s.push(-(1i32 << w) + d); } }
     for k in 0..32 { i32s.push(1i32.wrapping_shl(k)); }
     for _ in 0..spec.values { i32s.push(rng.random()); }
-    let mut i64s: Vec<i64> = vec![i64::MIN, i64::MIN + 1, -1, 0, 1, i64::MAX - 1, i64::MAX, 0xffff_ffff, 0x1_0000_0000, -0x1_0000_0000];
+    let mut i64s: Vec<i64> = vec![i64::MIN, i64::MIN + 1, -1, 0, 1, i64::MAX - 1, i64::MAX, 0xffff_ffff, 0x1_0000_0000, -0x1_0000_0000,
+                                  i32::MAX as i64, i32::MIN as i64];
+    for w in [7u32, 8, 15, 16, 31, 32] { for d in [-1i64, 0, 1] { i64s.push((1i64 << w) + d); i64s.push(-(1i64 << w) + d); } }
     for k in 0..64 { i64s.push(1i64.wrapping_shl(k)); }
     for _ in 0..spec.values { i64s.push(rng.random()); }
     let memos: Vec<usize> = vec![0, 1, 2, 255, 256, 998, 999, 1000, 65535, 65536, usize::MAX - 1, usize::MAX];
@@ -267,7 +271,7 @@ fn mutator_calls(spec: &Spec, rng: &mut ChaCha8Rng, out: &mut Out) {
                         let r = with_src(src, |g| m.mutate_int(x, g, 1.0));
                         emit("int", json!(limbs32(x as u32)), r.map(|(o, u)| (opt_limbs(o.map(|y| limbs32(y as u32))), u)));
                     }
-                    for &x in i64s.iter().take(10) {
+                    for &x in i64s.iter().take(12) {
                         let r = with_src(src, |g| m.mutate_long(x, g, 1.0));
                         emit("long", json!(limbs64(x as u64)), r.map(|(o, u)| (opt_limbs(o.map(|y| limbs64(y as u64))), u)));
                     }
